@@ -75,6 +75,34 @@ def load_known():
         return json.load(fh)
 
 
+def evaluate_dry(props, repo=None):
+    """Run the rule modules of `props` on the current tree without writing evidence.
+    Returns {prop: [ {instance, key, at, reason} ... ]} of violations not listed as known findings."""
+    import importlib
+    d = facts.build_facts("dev", repo=repo)
+    P = mir.Program(facts.load_facts(d))
+    known = load_known()
+    open_keys = {(k["property"], k["key"]) for k in known.get("open", [])}
+    out = {}
+    for prop in props:
+        mod = importlib.import_module("analysis.rules.%s" % prop.lower())
+        ctx = Ctx(prop, P)
+        try:
+            mod.run(ctx)
+        except Exception as e:
+            i = ctx.inst("%s.internal" % prop, "analysis completed without internal error")
+            i.fail("%s.internal:%s" % (prop, type(e).__name__), "-", "-", "analysis error: %s %s" % (e, traceback.format_exc()[-800:]))
+        for i in ctx.instances:
+            ctx.finish_floor(i)
+        vs = []
+        for i in ctx.instances:
+            for f in i.failures:
+                if (prop, f["key"]) not in open_keys:
+                    vs.append({"instance": i.id, "key": f["key"], "at": f["span"], "reason": f["reason"][:300]})
+        out[prop] = vs
+    return out
+
+
 def run_property(prop, rule_fn, tier="quick", seed=0, level_text="", replay=None):
     t0 = time.time()
     try:
